@@ -49,6 +49,7 @@ def lruOp (j : Json) : Json :=
     ("hostname", jchars (pyHostname p.netloc)),
     ("wf", jbool (wfParts p)),
     ("wf_sa", jbool (wfHostSA p.netloc)),
+    ("psl_host_ok", jbool (pslHostOK (specHost p.netloc))),
     ("nobar", jbool (noBar p)),
     ("spec_host", jchars (specHost p.netloc)),
     ("spec_port", jopt ((specPort p.netloc).map jchars)),
@@ -96,7 +97,8 @@ def pairOp (j : Json) : Json :=
       jbool (su.isPrefixOf sv),
       jbool (lu.isPrefixOf (serializeLru sv)),
       jbool (lcu.isPrefixOf (serializeLru cv)),
-      jbool (labelHost (specHost u.netloc) && labelHost (specHost v.netloc))
+      jbool (labelHost (specHost u.netloc) && labelHost (specHost v.netloc)),
+      jbool (decide (UnderRaw u v))
     ])
 
 /-- the answer of the real `split_suffix` stored under `key` (`null` or `[domain, suffix]`) -/
